@@ -135,13 +135,45 @@ Qed.
 
 Definition group_ok (g : group) : Prop := Forall entry_clean (fst g) /\ Forall clean (snd g).
 
+(* a grouping column is a path of key and index steps: what it reads is a sub-value (arrays rebuilt element-wise) *)
+Lemma key_reader_cons_arr : forall k rest l,
+  key_reader (KKey k :: rest) (VArr l) = let! l' := mapM (key_reader (KKey k :: rest)) l in Ok (VArr l').
+Proof.
+  intros k rest l. cbn [key_reader].
+  match goal with |- bind ?a _ = bind ?b _ => assert (Heq : a = b) end.
+  { induction l as [|x r IH]; [reflexivity|]. cbn [mapM]. rewrite <- IH. reflexivity. }
+  rewrite Heq. reflexivity.
+Qed.
+
+Lemma key_reader_clean : forall p v w, clean v -> key_reader p v = Ok w -> clean w.
+Proof.
+  induction p as [|st rest IHp]; intros v w Hv H.
+  - cbn in H. inversion H; subst; exact Hv.
+  - destruct st as [k|i].
+    + revert w Hv H. induction v using value_ind'; intros w Hv Hr;
+        try (cbn in Hr; first [discriminate | inversion Hr; subst; apply clean_null]).
+      * rewrite key_reader_cons_arr in Hr.
+        destruct (mapM (key_reader (KKey k :: rest)) l) eqn:Em; cbn in Hr; try discriminate.
+        inversion Hr; subst. apply clean_arr. apply clean_arr_inv in Hv.
+        eapply (mapM_Forall (key_reader (KKey k :: rest)) clean clean); [|exact Em].
+        rewrite Forall_forall in *. intros x Hx. split; [auto|]. intros b Hb. apply (H x Hx b); auto.
+      * cbn [key_reader] in Hr. eapply IHp; [|exact Hr]. apply clean_obj_get, Hv.
+    + destruct v as [| | | |l|kvs]; cbn [key_reader] in H;
+        try discriminate; try (inversion H; subst; apply clean_null).
+      destruct (i =? -1)%Z; [eapply IHp; [exact Hv|exact H]|].
+      destruct ((i <? 0)%Z || (Z.of_nat (List.length l) <=? i)%Z); [discriminate|].
+      destruct (nth_error l (Z.to_nat i)) as [x|] eqn:En; [|discriminate].
+      eapply IHp; [|exact H]. apply clean_arr_inv in Hv. rewrite Forall_forall in Hv.
+      apply Hv. eapply nth_error_In. exact En.
+Qed.
+
 Lemma group_key_clean : forall cols it k,
-  forallb name_ok cols = true -> clean it -> group_key cols it = Ok k -> Forall entry_clean k.
+  forallb (fun c => name_ok (gk_name c)) cols = true -> clean it -> group_key cols it = Ok k -> Forall entry_clean k.
 Proof.
   intros cols it k Hc Hit H. unfold group_key in H.
-  eapply (mapM_Forall' _ (fun c => name_ok c = true) entry_clean); [| |exact H].
-  - intros c [c' v] Hn Hb. destruct (reader [c] it) as [w| | |] eqn:Er; cbn [bind] in Hb; try discriminate.
-    inversion Hb; subst. split; cbn; [apply name_ok_iff, Hn|eapply reader_clean; eauto].
+  eapply (mapM_Forall' _ (fun c => name_ok (gk_name c) = true) entry_clean); [| |exact H].
+  - intros c [c' v] Hn Hb. destruct (key_reader (gk_path c) it) as [w| | |] eqn:Er; cbn [bind] in Hb; try discriminate.
+    inversion Hb; subst. split; cbn; [apply name_ok_iff, Hn|eapply key_reader_clean; eauto].
   - apply Forall_forall. intros c Hin. rewrite forallb_forall in Hc. auto.
 Qed.
 
@@ -160,7 +192,7 @@ Proof.
 Qed.
 
 Lemma group_rows_ok : forall cols items gs gs',
-  forallb name_ok cols = true -> Forall clean items -> Forall group_ok gs ->
+  forallb (fun c => name_ok (gk_name c)) cols = true -> Forall clean items -> Forall group_ok gs ->
   group_rows cols items gs = Ok gs' -> Forall group_ok gs'.
 Proof.
   intros cols. induction items as [|it rest IH]; intros gs gs' Hc Hi Hgs H; cbn in H.
@@ -182,7 +214,7 @@ Proof.
 Qed.
 
 Lemma exec_group_by_clean : forall (E : env stmt) s rows out,
-  forallb name_ok (s_group s) = true -> Forall clean rows ->
+  forallb (fun c => name_ok (gk_name c)) (s_group s) = true -> Forall clean rows ->
   exec_group_by E s rows = Ok out -> Forall clean out.
 Proof.
   intros E s rows out Hc Hr H. unfold exec_group_by in H.
@@ -230,7 +262,7 @@ Definition ctx_ok (strict : bool) (ctx : qctx) : Prop :=
 
 (* a prepared SELECT over given rows: only its grouping columns and select list matter *)
 Definition rows_select_ok (s : select stmt) : Prop :=
-  forallb name_ok (s_group s) = true /\ forallb (item_ok (stmt_ok true) false) (s_items s) = true.
+  forallb (fun c => name_ok (gk_name c)) (s_group s) = true /\ forallb (item_ok (stmt_ok true) false) (s_items s) = true.
 
 Definition job_ok (strict : bool) (j : job) : Prop :=
   match j with
@@ -366,7 +398,10 @@ Section Pipeline.
   (* BuildFrom *)
   Lemma build_from_none : forall ctx f, build_from rec join ctx f = Ok None -> is_dual f = true.
   Proof.
-    intros ctx f H. destruct f; cbn in H |- *; try reflexivity; exfalso.
+    intros ctx f H.
+    assert (Hsel : forall sl alias, f = FSel sl alias -> False).
+    { intros sl alias ->. cbn [build_from] in H. repeat ok_step H. }
+    destruct f; [reflexivity| | |exfalso; exact (Hsel _ _ eq_refl)| |]; clear Hsel; cbn in H |- *; exfalso.
     - destruct path as [|k rest]; [discriminate|].
       destruct (cte_lookup k (c_ctes ctx)).
       + destruct (existsb (String.eqb k) (c_busy ctx)); [discriminate|]. repeat ok_step H.
@@ -387,7 +422,7 @@ Section Pipeline.
     ctx_ok strict ctx -> from_ok (stmt_ok strict) strict f = true ->
     build_from rec join ctx f = Ok (Some rows) -> Forall clean rows.
   Proof.
-    intros strict. induction f as [|path alias|fn path alias|q alias|jt st l IHl r IHr on];
+    intros strict. induction f as [|path alias|fn path alias|sl alias|q alias|jt st l IHl r IHr on];
       intros ctx rows Hctx Hok H; cbn [build_from] in H; cbn [from_ok] in Hok.
     - discriminate.
     - apply Bool.andb_true_iff in Hok. destruct Hok as [Ha Hp].
@@ -434,6 +469,7 @@ Section Pipeline.
       destruct w; try (inversion H; subst; constructor);
         (destruct (as_array _) as [arr| | |] eqn:Ea; cbn [bind] in H; try discriminate;
          inversion H; subst; apply process_alias_clean; [exact Hok|eapply as_array_clean; [exact Hw|exact Ea]]).
+    - discriminate Hok.
     - apply Bool.andb_true_iff in Hok. destruct Hok as [Ha Hq].
       destruct (rec ctx (JStmt q)) as [v| | |] eqn:Ev; cbn [bind] in H; try discriminate.
       destruct (as_array v) as [arr| | |] eqn:Ea; cbn [bind] in H; try discriminate.
